@@ -24,7 +24,7 @@ SPEC = {
     "assumptions": ["'conformant' = what the CTfile specification permits and the harness renderer produces; headers ASCII; no trailing blanks after a continuation dash; coordinates as fixed-point decimals (no exponent notation); physical lines <= 79 characters + newline",
                     "coordinates compare as float(token)"],
     "monitors_required": ["c07_model_compare", "c07_explicit_default_relation"],
-    "required_obs": {"quick": ["split_class", "multi_split_lines", "star_files", "star_endpoints_ge_10", "extra_kw/EXACHG", "explicit_default", "explicit_default_mass_on_DT", "dt_seen", "cov_graph_from_file", "cov_every_offset_lines",
+    "required_obs": {"quick": ["split_class", "multi_split_lines", "star_files", "sgroup_text_with_quotes", "star_endpoints_ge_10", "extra_kw/EXACHG", "explicit_default", "explicit_default_mass_on_DT", "dt_seen", "cov_graph_from_file", "cov_every_offset_lines",
                                "cov_zero_bond_file", "cov_crlf", "cov_corpus_files_vs_own_reader"]},
     "watchdog_s": {"quick": 900, "thorough": 5400},
 }
@@ -54,7 +54,8 @@ def random_style(rng, mol):
     st.star = (rng.random() < 0.25 or mol.cls == "M11") and nb > 0
     st.star_all = mol.cls == "M11" and rng.random() < 0.7
     st.header = rng.choice([None, ["", "", ""], ["name with - dash", "  prog", "comment-"], ["x" * 79, "y", "M  V30 looks like ctab"],
-                            ["name V2000", "  prog V3000", "  3  2  0  0  0  0  0  0  0  0999 V2000"]])
+                            ["name V2000", "  prog V3000", "  3  2  0  0  0  0  0  0  0  0999 V2000"],
+                            ["2,2':6',2\"-terpyridine", "  it's \\ a \"name", "5'-O-DMT `x` $HOME #! %s {0}"]])
     st.trailing_blocks = rng.random() < 0.2
     st.after_end = rng.choice(["", "", "$$$$", "> <prop>\n1\n\n$$$$"])
     st.empty_bond_block = rng.random() < 0.3
